@@ -623,6 +623,13 @@ func lawFuzzMain(args []string) {
 				continue
 			}
 			members := doc.([]interface{})
+			if !number && it%3 == 0 {
+				// float64 values no JSON text can spell (a document built in memory, or decoded from another format):
+				// the relations between the selections hold for them as for any other member
+				extra := []interface{}{math.NaN(), math.Inf(1), math.Inf(-1)}[it/3%3]
+				members = append(members, extra)
+				doc = members
+			}
 			n := len(members)
 			for _, op := range []string{"<=", ">="} {
 				strict := strings.TrimSuffix(op, "=")
